@@ -309,3 +309,59 @@ def header_value_truncations(req, cap=80):
                 r.headers[i] = (k, f)
                 out.append(("hvalue-quoted-parameter", "hvalue", r.bytes()))
     return out
+
+
+# request headers that real clients, proxies and browsers send (RFC 9110/9111/9112, Fetch metadata, client hints, CORS,
+# conditional and range requests, forwarding): name, typical values.  None of them may change what the properties promise.
+HEADER_DICTIONARY = [
+    ("Accept", ["text/html,application/xhtml+xml,application/xml;q=0.9,image/avif,image/webp,*/*;q=0.8", "image/*", "application/json"]),
+    ("Accept-Encoding", ["gzip, deflate, br", "identity", "*;q=0"]), ("Accept-Language", ["en-US,en;q=0.9,uk;q=0.8", "*"]), ("Accept-Charset", ["utf-8"]),
+    ("Cache-Control", ["no-cache", "max-age=0", "only-if-cached"]), ("Pragma", ["no-cache"]), ("Connection", ["keep-alive", "close", "Upgrade"]), ("Keep-Alive", ["timeout=5, max=100"]),
+    ("Upgrade", ["websocket", "h2c"]), ("HTTP2-Settings", ["AAMAAABkAARAAAAAAAIAAAAA"]), ("Upgrade-Insecure-Requests", ["1"]), ("TE", ["trailers", "gzip"]), ("Trailer", ["Expires"]),
+    ("Transfer-Encoding", ["chunked", "identity"]), ("Content-Encoding", ["gzip"]), ("Content-Language", ["en"]), ("Content-MD5", ["Q2hlY2sgSW50ZWdyaXR5IQ=="]), ("Content-Location", ["/other"]),
+    ("Expect", ["100-continue"]), ("Max-Forwards", ["0", "10"]), ("From", ["user@example.com"]), ("Referer", ["https://ref.example/page?x=1"]), ("User-Agent", ["Mozilla/5.0 (X11; Linux x86_64) AppleWebKit/537.36 (KHTML, like Gecko) Chrome/120.0 Safari/537.36", "curl/8.4.0", ""]),
+    ("Authorization", ["Basic dXNlcjpwYXNz", "Bearer abc.def.ghi"]), ("Proxy-Authorization", ["Basic dXNlcjpwYXNz"]), ("Cookie", ["session=abc123; theme=dark", "a=b"]), ("Cookie2", ["$Version=1"]),
+    ("If-Modified-Since", ["Wed, 21 Oct 2015 07:28:00 GMT", "Thu, 01 Jan 2099 00:00:00 GMT"]), ("If-Unmodified-Since", ["Wed, 21 Oct 2015 07:28:00 GMT"]), ("If-None-Match", ['"abc"', "*", 'W/"67ab43"']), ("If-Match", ["*", '"xyz"']),
+    ("If-Range", ['"abc"', "Wed, 21 Oct 2015 07:28:00 GMT"]), ("Range", ["bytes=0-0"]), ("DNT", ["1"]), ("Sec-GPC", ["1"]),
+    ("Sec-Fetch-Dest", ["document", "image", "script", "style", "font", "video", "audio", "worker", "empty", "iframe", "object", "manifest", "track", "embed", "report"]),
+    ("Sec-Fetch-Mode", ["navigate", "no-cors", "cors", "same-origin", "websocket"]), ("Sec-Fetch-Site", ["none", "same-origin", "same-site", "cross-site"]), ("Sec-Fetch-User", ["?1"]), ("Sec-Purpose", ["prefetch", "prefetch;prerender"]), ("Purpose", ["prefetch"]),
+    ("Save-Data", ["on", "On", "off"]), ("Device-Memory", ["8", "0.25"]), ("Downlink", ["10", "0.5"]), ("ECT", ["4g", "slow-2g"]), ("RTT", ["50"]), ("Viewport-Width", ["1280"]), ("Width", ["640"]), ("DPR", ["2.0"]),
+    ("Sec-CH-UA", ['"Chromium";v="120", "Not A;Brand";v="99"']), ("Sec-CH-UA-Mobile", ["?0", "?1"]), ("Sec-CH-UA-Platform", ['"Linux"']), ("Sec-CH-UA-Arch", ['"x86"']), ("Sec-CH-UA-Bitness", ['"64"']), ("Sec-CH-UA-Model", ['""']),
+    ("Sec-CH-UA-Full-Version-List", ['"Chromium";v="120.0.6099.71"']), ("Sec-CH-UA-Platform-Version", ['"6.5.0"']), ("Sec-CH-UA-WoW64", ["?0"]), ("Sec-CH-Prefers-Color-Scheme", ["dark"]), ("Sec-CH-Prefers-Reduced-Motion", ["reduce"]),
+    ("Sec-CH-Viewport-Width", ["1280"]), ("Sec-CH-Viewport-Height", ["720"]), ("Sec-CH-DPR", ["2"]), ("Sec-CH-Width", ["640"]), ("Sec-CH-Device-Memory", ["8"]), ("Sec-CH-Save-Data", ["?1"]), ("Sec-CH-Downlink", ["10"]), ("Sec-CH-ECT", ["4g"]), ("Sec-CH-RTT", ["50"]),
+    ("Critical-CH", ["Sec-CH-UA-Model"]), ("Accept-CH", ["Sec-CH-UA-Arch"]), ("Origin", ["null", "https://app.example"]), ("Access-Control-Request-Method", ["DELETE"]), ("Access-Control-Request-Headers", ["x-custom, content-type"]),
+    ("Access-Control-Request-Private-Network", ["true"]), ("Forwarded", ["for=192.0.2.60;proto=https;by=203.0.113.43;host=files.example"]), ("X-Forwarded-For", ["203.0.113.195, 70.41.3.18"]), ("X-Forwarded-Proto", ["https"]), ("X-Forwarded-Host", ["files.example"]),
+    ("X-Forwarded-Port", ["443"]), ("X-Real-IP", ["203.0.113.195"]), ("Via", ["1.1 vegur", "HTTP/1.1 proxy.example"]), ("X-Requested-With", ["XMLHttpRequest"]), ("X-HTTP-Method-Override", ["DELETE", "PUT"]), ("X-Original-URL", ["/admin"]), ("X-Rewrite-URL", ["/../secret"]),
+    ("Content-Type", ["text/plain", "application/json; charset=utf-8"]), ("Content-Length", ["0"]), ("Content-Disposition", ['attachment; filename="a.txt"']), ("Content-Range", ["bytes 0-0/1"]), ("Host", ["files.example", "files.example:8080", "[::1]:7878", ""]),
+    ("Priority", ["u=0, i"]), ("Early-Data", ["1"]), ("Alt-Used", ["files.example"]), ("Service-Worker", ["script"]), ("Service-Worker-Navigation-Preload", ["true"]), ("Last-Event-ID", ["42"]), ("Ping-From", ["https://a.example/"]), ("Ping-To", ["https://b.example/"]),
+    ("Idempotency-Key", ['"8e03978e-40d5-43e8-bc93-6894a57f9324"']), ("Prefer", ["return=minimal"]), ("Want-Digest", ["sha-256"]), ("Digest", ["sha-256=X48E9qOokqqrvdts8nOJRJN3OWDUoyWxBf7kbu9DBPE="]), ("Date", ["Wed, 21 Oct 2015 07:28:00 GMT"]), ("Warning", ['199 - "misc"']),
+]
+
+
+def dictionary_requests(valid, rng=None):
+    """each dictionary header (every listed value, name in canonical / lower / upper case) added to a few representative
+    valid requests, plus one browser-like request carrying them all; yields (kind, element, raw)"""
+    out = []
+    reps = []
+    want = ("static", "notfound", "static-head", "static-preflight", "form-urlencoded", "index")
+    for w in want:
+        r = next((x for x in valid if x.route == w), None)
+        if r is not None:
+            reps.append(r)
+    k = 0
+    for name, values in HEADER_DICTIONARY:
+        for v in values:
+            for spell in (name, name.lower()) if k % 3 else (name, name.lower(), name.upper()):
+                r = reps[k % len(reps)].copy()
+                k += 1
+                have = [i for i, (hn, _) in enumerate(r.headers) if (hn if isinstance(hn, str) else hn.decode("latin-1")).lower() == name.lower()]
+                if have and name.lower() in ("content-length", "content-type", "host"):
+                    continue   # replacing the framing of a valid request is the mutation campaign's business
+                r.headers = r.headers + [(spell, v)]
+                out.append(("dictionary-header:%s" % name.lower(), "hdict", r.bytes()))
+    for r in reps[:3]:
+        r2 = r.copy()
+        have = set((hn if isinstance(hn, str) else hn.decode("latin-1")).lower() for hn, _ in r2.headers)
+        r2.headers = r2.headers + [(n, vs[0]) for n, vs in HEADER_DICTIONARY if n.lower() not in have and n.lower() not in ("content-length", "transfer-encoding", "range", "if-range", "host", "expect")]
+        out.append(("dictionary-header:all-at-once", "hdict", r2.bytes()))
+    return out
